@@ -178,3 +178,47 @@ Proof.
   - eapply levels_allot_zero in H; try lia. destruct H as (Hb & Hf & _). repeat split; auto; lia.
   - eapply levels_allot_zero in H; try lia. destruct H as (Hb & Hf & _). repeat split; auto; lia.
 Qed.
+
+(* soft limit 0, liveness: if some arena has a mandatory (enqueued-work) request with a non-zero demand, the one worker IS granted *)
+Definition wants (q : creq) : Prop := 0 < fst q /\ snd q <> 0.
+Lemma level_allot_zero_grants apl D cs : forall assigned carry r a c,
+  level_allot 0 apl D 1 cs assigned carry = (r, a, c) -> (assigned = 0 \/ assigned = 1) ->
+  (a = 0 \/ a = 1) /\ assigned <= a /\ (Exists wants cs -> a = 1).
+Proof.
+  induction cs as [|[mn mx] tl IH]; intros assigned carry r a c H Ha; cbn [level_allot] in H.
+  - inv H. split; [auto|]. split; [lia|]. intros HE. inv HE.
+  - destruct (mx =? 0) eqn:Emx.
+    + destruct (level_allot 0 apl D 1 tl assigned carry) as [[r1 a1] c1] eqn:E. inv H.
+      destruct (IH _ _ _ _ _ E Ha) as (H1 & H2 & H3). split; [auto|]. split; [auto|].
+      intros HE. inv HE; [|auto]. destruct H0 as [_ Hq]. cbn in Hq. apply Z.eqb_eq in Emx. congruence.
+    + cbn [Z.eqb] in H.
+      set (al := if (0 <? mn) && (assigned <? 1) then 1 else 0) in *.
+      destruct (level_allot 0 apl D 1 tl (assigned + al) carry) as [[r1 a1] c1] eqn:E. inv H.
+      assert (Hal : assigned + al = 0 \/ assigned + al = 1) by (unfold al; destruct ((0 <? mn) && (assigned <? 1)) eqn:Eb; [apply andb_true_iff in Eb; destruct Eb as [_ Eb]; apply Z.ltb_lt in Eb; lia|lia]).
+      destruct (IH _ _ _ _ _ E Hal) as (H1 & H2 & H3). split; [auto|]. split; [unfold al in *; destruct ((0 <? mn) && (assigned <? 1)); lia|].
+      intros HE. inv HE; [|auto]. destruct H0 as [Hq _]. cbn in Hq.
+      unfold al in *. destruct (assigned <? 1) eqn:E1.
+      * apply Z.ltb_lt in Hq. rewrite Hq in *. cbn in H2. lia.
+      * apply Z.ltb_ge in E1. rewrite andb_false_r in H2. lia.
+Qed.
+Lemma levels_allot_zero_grants lv : forall unassigned assigned carry res a,
+  levels_allot 0 1 lv unassigned assigned carry = (res, a) -> (assigned = 0 \/ assigned = 1) ->
+  (a = 0 \/ a = 1) /\ assigned <= a /\ (Exists (fun p => Exists wants (snd p)) lv -> a = 1).
+Proof.
+  induction lv as [|[D cs] tl IH]; intros unassigned assigned carry res a H Ha; cbn [levels_allot] in H.
+  - inv H. split; [auto|]. split; [lia|]. intros HE. inv HE.
+  - destruct (level_allot 0 (Z.min D unassigned) D 1 cs assigned carry) as [[r1 a1] c1] eqn:E.
+    destruct (levels_allot 0 1 tl (unassigned - Z.min D unassigned) a1 c1) as [rs a2] eqn:E2. inv H.
+    destruct (level_allot_zero_grants _ _ _ _ _ _ _ _ E Ha) as (H1 & H2 & H3).
+    destruct (IH _ _ _ _ _ E2 H1) as (H4 & H5 & H6). split; [auto|]. split; [lia|].
+    intros HE. inv HE; [cbn in H0; specialize (H3 H0); lia|auto].
+Qed.
+Lemma update_allotment_zero_grants mand total lv res a :
+  0 < mand -> 1 <= total -> update_allotment 0 mand total lv = (res, a) ->
+  Exists (fun p => Exists wants (snd p)) lv -> a = 1.
+Proof.
+  intros Hm Ht H HE. unfold update_allotment, effective_limit in H. cbn [Z.eqb] in H. rewrite andb_true_r in H.
+  replace (0 <? mand) with true in H by (symmetry; apply Z.ltb_lt; auto).
+  replace (Z.min total 1) with 1 in H by lia.
+  eapply levels_allot_zero_grants in H; [|auto]. destruct H as (_ & _ & H). auto.
+Qed.
